@@ -6,24 +6,35 @@ Model: `Model/Recv.lean` (`refill_buffer`, `read_once`, `read_whole_message`, `g
 `connection/ll_conn.rs` over an explicit kernel/peer: a stream of cells, `arrive`/`deliver`/`wouldBlock`
 events). A history (`List Action`) interleaves arriving bytes with client calls, each call with the list
 of events that happen during it; all theorems quantify over ALL frame lists of well-formed frames
-(`FrameOk`), ALL histories, ALL kernel answers (any `k`, i.e. any short read).
+(`FrameOk`), ALL histories of `read_once` / guarded `read_once` / `get_next_message` calls in any order,
+ALL kernel answers (any `k`, i.e. any short read). There is no restriction on how the client uses
+`read_once`.
 
-Kernel assumptions (trusted base): in-order byte stream; a `recvmsg` returns EAGAIN or 1..min(requested,
-queued) bytes; SCM_RIGHTS descriptors arrive with the first byte of the `sendmsg` they were attached to;
-at most 10 fit the control buffer; a zero-length `recvmsg` on a non-empty queue returns 0 bytes and still
-hands over the descriptors riding on the next byte (observed on Linux 6.18, tied by the engine).
+History of this package: an earlier version of the code called `recvmsg` with a zero-length buffer when
+`read_once` found a complete message in the buffer; the kernel answers that with 0 bytes (reported as
+`ConnectionClosed`) and hands over - i.e. loses - the descriptors of the NEXT message. `refill_buffer` now
+returns `Ok(())` without reading when `max_buffer_size <= filled`. The model mirrors that early return;
+`refill_issues_no_zero_length_recvmsg` shows that the zero-length `recvmsg` (still part of the kernel
+model) can no longer be issued, `never_reports_closed` that `ConnectionClosed` is unreachable, and
+`reassembly` now holds at full strength. `read_once_on_complete_buffer_is_noop` and
+`read_once_on_complete_buffer_keeps_descriptors` (the history of the former counterexample) state the
+repaired behaviour.
+
+Kernel assumptions (trusted base): in-order byte stream; a `recvmsg` into a buffer of ≥ 1 byte returns
+EAGAIN or 1..min(requested, queued) bytes; SCM_RIGHTS descriptors arrive with the first byte of the
+`sendmsg` they were attached to; at most 10 fit the control buffer; the peer does not hang up (a hang-up
+is outside this model; then `ConnectionClosed` is the right answer).
 -/
 namespace Rustbus.Recv
 open Rustbus Rustbus.Bytes Rustbus.Header
 
 /-- every reachable state satisfies the invariant for the frames not yet handed out -/
 private theorem reach {frames : List Frame} {acts : List Action} {tr : List Res} {st : State} {w : World}
-    (hok : ∀ f ∈ frames, FrameOk f) (h : run State.empty (World.init frames) acts = (tr, st, w))
-    (hnc : Res.closed ∉ tr) :
+    (hok : ∀ f ∈ frames, FrameOk f) (h : run State.empty (World.init frames) acts = (tr, st, w)) :
     Inv (frames.drop (msgs tr).length) st w ∧ FramesOk (frames.drop (msgs tr).length) ∧
     msgs tr = frames.take (msgs tr).length ∧ (msgs tr).length ≤ frames.length ∧
     ∀ r ∈ tr, r.good = true := by
-  obtain ⟨todo, hI, hok', ht, hg⟩ := run_inv acts frames _ _ (inv_init frames) hok tr st w h hnc
+  obtain ⟨todo, hI, hok', ht, hg⟩ := run_inv acts frames _ _ (inv_init frames) hok tr st w h
   have hd' : frames.drop (msgs tr).length = todo := by rw [ht]; simp
   have hk : frames.take (msgs tr).length = msgs tr := by rw [ht]; simp
   refine ⟨by rw [hd']; exact hI, by rw [hd']; exact hok', hk.symm, ?_, hg⟩
@@ -31,69 +42,72 @@ private theorem reach {frames : List Frame} {acts : List Action} {tr : List Res}
   simp only [List.length_append] at this
   omega
 
-private theorem noRaw_not_closed {frames : List Frame} {acts : List Action} {tr : List Res} {st : State}
-    {w : World} (hok : ∀ f ∈ frames, FrameOk f) (hnr : NoRaw acts)
-    (h : run State.empty (World.init frames) acts = (tr, st, w)) : Res.closed ∉ tr :=
-  run_noRaw acts frames _ _ (inv_init frames) hok hnr tr st w h
-
 /-- The size a header announces is fixed as soon as 16 bytes are buffered: it depends on nothing else. -/
 theorem announcement_depends_on_first_16 (buf : List UInt8) (h : 16 ≤ buf.length) :
     bytesNeeded buf = bytesNeeded (buf.take 16) :=
   (bytesNeeded_take16 buf h).symm
 
-/- FULL statement of reassembly (does NOT hold for the code): for every list of well-formed frames and
-   EVERY history of arrivals and client calls `read_once` / guarded `read_once` / `get_next_message`,
-   `msgs tr = frames.take n`.
-   It fails exactly when `read_once` is called although the buffer already holds a complete message: that
-   call does a zero-length `recvmsg`, which the kernel answers with 0 bytes (reported as `ConnectionClosed`)
-   while handing over - and thereby losing - the descriptors of the next message; see the example
-   `zero_length_read_steals_descriptors` below (and the engine's `zero_length_recvmsg` scenarios on the real
-   code). Proved instead: `reassembly` (all histories of `get_next_message` and guarded `read_once`) and
-   `reassembly_partial` (all histories in which no call reported `ConnectionClosed`). -/
+/-- `refill_buffer` never hands the kernel an empty buffer (ANY state, ANY request bound): either the
+    buffer already holds `max_buffer_size` bytes - then it returns `Ok(())`, reserves nothing, issues NO
+    `recvmsg`, and state and socket are untouched - or it issues exactly one `recvmsg` whose buffer has at
+    least one byte. The zero-length `recvmsg` of the kernel model (0 bytes, steals the next message's
+    descriptors) is therefore unreachable. -/
+theorem refill_issues_no_zero_length_recvmsg (st : State) (w : World) (maxBuf k : Nat) :
+    (maxBuf ≤ st.buf.length ∧ refill st w maxBuf k = (.readOk, st, w)) ∨
+    (st.buf.length < maxBuf ∧ 0 < (reserve st maxBuf).cap - st.buf.length ∧
+      refill st w maxBuf k =
+        match recvmsg w ((reserve st maxBuf).cap - st.buf.length) k with
+        | (.eagain, w') => (.timedOut, reserve st maxBuf, w')
+        | (.data bytes fds, w') =>
+          if bytes.isEmpty then (.closed, reserve st maxBuf, w')
+          else (.readOk, { reserve st maxBuf with buf := st.buf ++ bytes, fds := st.fds ++ fds }, w')) := by
+  by_cases hfull : maxBuf ≤ st.buf.length
+  · exact Or.inl ⟨hfull, refill_full hfull w k⟩
+  · exact Or.inr ⟨by omega, refill_request_pos st maxBuf hfull, refill_read hfull w k⟩
 
-/-- Reassembly, for every history in which no call reported `ConnectionClosed`: the messages returned so far
-    are exactly the first `n` frames, in order, each with exactly its own bytes and exactly its own
-    descriptors, where `n` is the number of completing `get_next_message` calls; every byte and every
-    descriptor of the remaining frames is either in the buffer / `fds_in` or still unread in the socket
-    (nothing lost, nothing duplicated, whatever timed out in between); no call failed. -/
-theorem reassembly_partial (frames : List Frame) (acts : List Action) (tr : List Res) (st : State) (w : World)
-    (hok : ∀ f ∈ frames, FrameOk f) (h : run State.empty (World.init frames) acts = (tr, st, w))
-    (hnc : Res.closed ∉ tr) :
-    ∃ n, n = (msgs tr).length ∧ n ≤ frames.length ∧ msgs tr = frames.take n ∧
-      (stream (frames.drop n)).map Prod.fst = st.buf ++ w.rest.map Prod.fst ∧
-      (stream (frames.drop n)).flatMap Prod.snd = st.fds ++ w.rest.flatMap Prod.snd ∧
-      ∀ r ∈ tr, r.good = true := by
-  obtain ⟨hI, _, hk, hle, hg⟩ := reach hok h hnc
-  obtain ⟨hc1, hc2⟩ := inv_conservation hI
-  exact ⟨_, rfl, hle, hk, hc1, hc2, hg⟩
+/-- No call ever reports `ConnectionClosed` (the peer of the model stays connected): in EVERY history, from
+    ANY state, over ANY stream - well-formed frames or not. -/
+theorem never_reports_closed (st : State) (w : World) (acts : List Action) :
+    Res.closed ∉ (run st w acts).1 :=
+  run_ne_closed acts st w
 
-/-- Reassembly at full strength for clients that use `get_next_message` and call `read_once` only while
-    `buffer_contains_whole_message()` is false: for ALL frame lists, ALL histories, ALL kernel answers the
-    returned messages are exactly a prefix of the frames, nothing is lost or duplicated, and no call ever
-    fails or reports a closed connection. -/
+/-- Reassembly at FULL strength: for every list of well-formed frames and EVERY history of arrivals and
+    client calls - `get_next_message`, guarded `read_once` and raw `read_once` in any order, also on a buffer
+    that already holds a complete message - under ALL kernel answers: the messages returned so far are exactly
+    the first `n` frames, in order, each with exactly its own bytes and exactly its own descriptors, where
+    `n` is the number of completing `get_next_message` calls; every byte and every descriptor of the
+    remaining frames is either in the buffer / `fds_in` or still unread in the socket (nothing lost, nothing
+    duplicated, whatever timed out in between); no call failed and none reported a closed connection. -/
 theorem reassembly (frames : List Frame) (acts : List Action) (tr : List Res) (st : State) (w : World)
-    (hok : ∀ f ∈ frames, FrameOk f) (hnr : NoRaw acts)
-    (h : run State.empty (World.init frames) acts = (tr, st, w)) :
+    (hok : ∀ f ∈ frames, FrameOk f) (h : run State.empty (World.init frames) acts = (tr, st, w)) :
     ∃ n, n = (msgs tr).length ∧ n ≤ frames.length ∧ msgs tr = frames.take n ∧
       (stream (frames.drop n)).map Prod.fst = st.buf ++ w.rest.map Prod.fst ∧
       (stream (frames.drop n)).flatMap Prod.snd = st.fds ++ w.rest.flatMap Prod.snd ∧
-      ∀ r ∈ tr, r.good = true :=
-  reassembly_partial frames acts tr st w hok h (noRaw_not_closed hok hnr h)
+      (∀ r ∈ tr, r.good = true) ∧ Res.closed ∉ tr := by
+  obtain ⟨hI, _, hk, hle, hg⟩ := reach hok h
+  obtain ⟨hc1, hc2⟩ := inv_conservation hI
+  refine ⟨_, rfl, hle, hk, hc1, hc2, hg, ?_⟩
+  intro hm
+  have := hg _ hm
+  simp [Res.good] at this
 
 /-- The key invariant, at every point of every history: the buffer is a prefix of the CURRENT frame (it
     never contains a byte of the next one), `fds_in` holds exactly the current frame's descriptors once its
     first byte is in (none before), the announced size is the current frame's length (16 before the header
-    is complete), and the next `recvmsg` asks for no more than the rest of the current frame. When no
-    frame is left there is nothing to read. -/
+    is complete), the next `recvmsg` asks for no more than the rest of the current frame, and once the
+    current frame is complete a `read_once` reads nothing at all. When no frame is left there is nothing to
+    read. -/
 theorem never_reads_past_frame (frames : List Frame) (acts : List Action) (tr : List Res) (st : State)
     (w : World) (hok : ∀ f ∈ frames, FrameOk f)
-    (h : run State.empty (World.init frames) acts = (tr, st, w)) (hnc : Res.closed ∉ tr) :
+    (h : run State.empty (World.init frames) acts = (tr, st, w)) :
     let todo := frames.drop (msgs tr).length
     let cur := hd todo
     st.buf <+: cur.bytes ∧
     st.fds = (if st.buf.length = 0 then [] else cur.fds) ∧
     (∃ nd, bytesNeeded st.buf = .bytes nd ∧ nd = (if st.buf.length < 16 then 16 else cur.bytes.length) ∧
       (todo ≠ [] → (reserve st nd).cap - st.buf.length ≤ cur.bytes.length - st.buf.length)) ∧
+    (todo ≠ [] → st.buf = cur.bytes →
+      ∀ evs, readOnce st w evs = (.readOk, st, w.arrive (arrivals evs))) ∧
     (todo = [] → st.buf = [] ∧ w.rest = []) := by
   intro todo cur
   have hcur : cur = hd todo := rfl
@@ -101,8 +115,8 @@ theorem never_reads_past_frame (frames : List Frame) (acts : List Action) (tr : 
   clear_value cur todo
   subst hcur
   subst htodo
-  obtain ⟨hI, hok', _, _, _⟩ := reach hok h hnc
-  refine ⟨?_, hI.fds, ⟨_, needed_of_inv hI hok', rfl, ?_⟩, ?_⟩
+  obtain ⟨hI, hok', _, _, _⟩ := reach hok h
+  refine ⟨?_, hI.fds, ⟨_, needed_of_inv hI hok', rfl, ?_⟩, ?_, ?_⟩
   · have := hI.buf
     rw [this]; exact List.take_prefix _ _
   · intro hne
@@ -112,6 +126,9 @@ theorem never_reads_past_frame (frames : List Frame) (acts : List Action) (tr : 
     simp only [reserve]
     generalize maxGrowth = G
     split <;> omega
+  · intro hne hb evs
+    apply readOnce_whole
+    rw [check_of_inv hI hok', if_pos ⟨by rw [hb], hne⟩]
   · intro hnil
     have hle := hI.le
     have hr := hI.rest
@@ -126,11 +143,11 @@ theorem never_reads_past_frame (frames : List Frame) (acts : List Action) (tr : 
     (16 while no frame is pending) and never exceeds `filled + 64 KiB` (the `MAX_GROWTH` step; 16 at least). -/
 theorem capacity_bounded (frames : List Frame) (acts : List Action) (tr : List Res) (st : State)
     (w : World) (hok : ∀ f ∈ frames, FrameOk f)
-    (h : run State.empty (World.init frames) acts = (tr, st, w)) (hnc : Res.closed ∉ tr) :
+    (h : run State.empty (World.init frames) acts = (tr, st, w)) :
     st.buf.length ≤ st.cap ∧
     st.cap ≤ max 16 (hd (frames.drop (msgs tr).length)).bytes.length ∧
     st.cap ≤ max 16 (st.buf.length + maxGrowth) := by
-  obtain ⟨hI, _, _, _, _⟩ := reach hok h hnc
+  obtain ⟨hI, _, _, _, _⟩ := reach hok h
   exact ⟨hI.lenCap, hI.cap, hI.grow⟩
 
 /-- One `refill_buffer` never reserves beyond `filled + 64 KiB` (any state, any request). -/
@@ -143,12 +160,19 @@ theorem reserve_growth_clamped (st : State) (maxBuf : Nat) :
 
 /-- A `recvmsg` that would block is a no-op (ANY state, no assumption on the stream): buffer, descriptors
     and the stream position are unchanged, only the reservation may have grown, and the next
-    `refill_buffer` behaves exactly as it would have without the timeout. -/
+    `refill_buffer` behaves exactly as it would have without the timeout. (A `refill_buffer` on a buffer
+    that is already full for its request does not time out: it returns `Ok(())`, see
+    `refill_issues_no_zero_length_recvmsg`.) -/
 theorem timeout_is_noop (st st' : State) (w w' : World) (nd k : Nat)
     (h : refill st w nd k = (.timedOut, st', w')) :
-    st'.buf = st.buf ∧ st'.fds = st.fds ∧ w' = w ∧ ∀ k2, refill st' w' nd k2 = refill st w nd k2 := by
+    st.buf.length < nd ∧ st'.buf = st.buf ∧ st'.fds = st.fds ∧ w' = w ∧
+    ∀ k2, refill st' w' nd k2 = refill st w nd k2 := by
+  have hlt : st.buf.length < nd := by
+    by_cases hfull : nd ≤ st.buf.length
+    · rw [refill_full hfull] at h; simp at h
+    · omega
   obtain ⟨rfl, rfl⟩ := refill_timedOut h
-  exact ⟨rfl, rfl, rfl, fun k2 => refill_after_timeout st _ nd k2⟩
+  exact ⟨hlt, rfl, rfl, rfl, fun k2 => refill_after_timeout hlt _ k2⟩
 
 /-- A call on an incomplete buffer during which nothing happens times out, and the rest of the history
     then yields exactly the results it would have yielded without that call (ANY state, ANY later history):
@@ -159,13 +183,31 @@ theorem timed_out_call_is_invisible (st : State) (w : World) (nd : Nat) (c : Cal
   simp only [run, step_nil_timedOut hc]
   rw [← run_reserve_trace acts st w hc]
 
+/-- `read_once` on a buffer that already holds a complete message is a no-op (ANY state, ANY stream, ANY
+    events during the call): it returns `Ok(())`; buffer, reservation and `fds_in` are unchanged; nothing
+    is taken from the socket - the unread stream with the descriptors riding on it is untouched, the only
+    change of the world is what the peer makes arrive during the call (none: the world is unchanged);
+    the rest of the history proceeds as if the call had not been made. -/
+theorem read_once_on_complete_buffer_is_noop (st : State) (w : World) (evs : List Ev)
+    (h : check st = .whole) :
+    step .readOnce st w evs = (.readOk, st, w.arrive (arrivals evs)) ∧
+    (w.arrive (arrivals evs)).rest = w.rest ∧
+    (arrivals evs = 0 → step .readOnce st w evs = (.readOk, st, w)) ∧
+    ∀ acts, run st w (.call .readOnce evs :: acts) =
+      (.readOk :: (run st w (.arrive (arrivals evs) :: acts)).1, (run st w (.arrive (arrivals evs) :: acts)).2) := by
+  have hs : step .readOnce st w evs = (.readOk, st, w.arrive (arrivals evs)) := readOnce_whole h w evs
+  refine ⟨hs, rfl, ?_, ?_⟩
+  · intro h0; rw [hs, h0, arrive_zero]
+  · intro acts
+    simp only [run, hs]
+
 /-- Chunking is irrelevant: a history that has consumed the whole stream (nothing buffered, nothing unread)
-    has returned exactly the frames - whatever the chunking, the short reads, the timeouts. -/
+    has returned exactly the frames - whatever the chunking, the short reads, the timeouts, the calls used. -/
 theorem complete_history_returns_all (frames : List Frame) (acts : List Action) (tr : List Res) (st : State)
     (w : World) (hok : ∀ f ∈ frames, FrameOk f)
-    (h : run State.empty (World.init frames) acts = (tr, st, w)) (hnc : Res.closed ∉ tr)
+    (h : run State.empty (World.init frames) acts = (tr, st, w))
     (hb : st.buf = []) (hr : w.rest = []) : msgs tr = frames := by
-  obtain ⟨hI, hok', hk, _, _⟩ := reach hok h hnc
+  obtain ⟨hI, hok', hk, _, _⟩ := reach hok h
   have hw : check st ≠ .whole := by unfold check; rw [hb]; simp
   have := inv_rest_nil hI hok' hr hw
   rw [hk]
@@ -175,12 +217,12 @@ theorem complete_history_returns_all (frames : List Frame) (acts : List Action) 
 /-- Any two complete histories over the same frames return the same messages. -/
 theorem chunking_irrelevant (frames : List Frame) (a1 a2 : List Action) (tr1 tr2 : List Res)
     (st1 st2 : State) (w1 w2 : World) (hok : ∀ f ∈ frames, FrameOk f)
-    (h1 : run State.empty (World.init frames) a1 = (tr1, st1, w1)) (hn1 : Res.closed ∉ tr1)
-    (h2 : run State.empty (World.init frames) a2 = (tr2, st2, w2)) (hn2 : Res.closed ∉ tr2)
+    (h1 : run State.empty (World.init frames) a1 = (tr1, st1, w1))
+    (h2 : run State.empty (World.init frames) a2 = (tr2, st2, w2))
     (hb1 : st1.buf = []) (hr1 : w1.rest = []) (hb2 : st2.buf = []) (hr2 : w2.rest = []) :
     msgs tr1 = msgs tr2 := by
-  rw [complete_history_returns_all frames a1 tr1 st1 w1 hok h1 hn1 hb1 hr1,
-    complete_history_returns_all frames a2 tr2 st2 w2 hok h2 hn2 hb2 hr2]
+  rw [complete_history_returns_all frames a1 tr1 st1 w1 hok h1 hb1 hr1,
+    complete_history_returns_all frames a2 tr2 st2 w2 hok h2 hb2 hr2]
 
 /-- One byte at a time - every boundary inside the fixed header, the length words, the padding: the
     history in which each byte arrives alone and is followed by one `get_next_message` whose `recvmsg`
@@ -242,14 +284,39 @@ example : msgs (run State.empty (World.init [exF1, exF2]) exHistory).1 = [exF1, 
 example : msgs (run State.empty (World.init [exF1, exF2]) (oneByte 113)).1 = [exF1, exF2] := by
   decide +kernel
 
-/-- The counterexample to the full statement: both frames queued, `read_once` three times. The third call
-    finds a complete buffer, its zero-length `recvmsg` returns 0 bytes (`ConnectionClosed`) and takes the
-    descriptors 7 and 9 of the second frame with it: that message later arrives without them. -/
-theorem zero_length_read_steals_descriptors :
+/-- The history that used to break reassembly: both frames queued, `read_once` three times, then two
+    `get_next_message`. The third `read_once` finds a complete buffer: it returns `Ok(())` and reads nothing,
+    and the second message is returned WITH its descriptors 7 and 9. -/
+theorem read_once_on_complete_buffer_keeps_descriptors :
     (run State.empty (World.init [exF1, exF2])
       [.arrive 113, .call .readOnce all, .call .readOnce all, .call .readOnce all, .call .getNext all,
        .call .getNext all]).1 =
-    [.readOk, .readOk, .closed, .msg exF1.bytes [], .msg exF2.bytes []] := by decide +kernel
+    [.readOk, .readOk, .readOk, .msg exF1.bytes [], .msg exF2.bytes [7, 9]] := by decide +kernel
+
+/-- ... and that third call changed neither the connection nor the socket -/
+example :
+    (run State.empty (World.init [exF1, exF2])
+      [.arrive 113, .call .readOnce all, .call .readOnce all, .call .readOnce all]).2 =
+    (run State.empty (World.init [exF1, exF2]) [.arrive 113, .call .readOnce all, .call .readOnce all]).2 := by
+  decide +kernel
+
+/-- the premise of `read_once_on_complete_buffer_is_noop` is reachable, with the next message queued -/
+example :
+    check (run State.empty (World.init [exF1, exF2])
+      [.arrive 113, .call .readOnce all, .call .readOnce all]).2.1 = .whole := by decide +kernel
+
+/-- raw `read_once` calls on complete buffers sprinkled over a chunked history (chunks 48+1, 10, 54; the second
+    message's first byte - the one its descriptors ride on - is queued while the first message is complete) -/
+example : (run State.empty (World.init [exF1, exF2])
+      [.arrive 49, .call .readOnce all, .call .readOnce all, .call .readOnce [], .call .readOnce [.arrive 10, .deliver 7],
+       .call .getNext all, .call .readOnce all, .arrive 54, .call .readMore all, .call .readOnce all,
+       .call .readOnce [.wouldBlock], .call .getNext all, .call .readOnce all]).1 =
+    [.readOk, .readOk, .readOk, .readOk, .msg exF1.bytes [], .readOk, .readOk, .readOk, .readOk,
+     .msg exF2.bytes [7, 9], .timedOut] := by decide +kernel
+
+/-- the zero-length `recvmsg` of the kernel model does steal descriptors - it is only never issued -/
+example : recvmsg { rest := cells exF2, avail := 65 } 0 5 =
+    (.data [] [7, 9], { rest := (108, []) :: (cells exF2).drop 1, avail := 65 }) := by decide +kernel
 
 /-- refused announcements exist: a bad endianness byte, and a field array of 64 MiB + 1 -/
 example : bytesNeeded (120 :: exF1.bytes.drop 1) = .invalid := by decide +kernel
@@ -259,15 +326,17 @@ example : bytesNeeded ([108, 1, 0, 1, 0, 0, 0, 0, 1, 0, 0, 0, 1, 0, 0, 4] ++ exF
 end Rustbus.Recv
 
 #print axioms Rustbus.Recv.announcement_depends_on_first_16
-#print axioms Rustbus.Recv.reassembly_partial
+#print axioms Rustbus.Recv.refill_issues_no_zero_length_recvmsg
+#print axioms Rustbus.Recv.never_reports_closed
 #print axioms Rustbus.Recv.reassembly
 #print axioms Rustbus.Recv.never_reads_past_frame
 #print axioms Rustbus.Recv.capacity_bounded
 #print axioms Rustbus.Recv.reserve_growth_clamped
 #print axioms Rustbus.Recv.timeout_is_noop
 #print axioms Rustbus.Recv.timed_out_call_is_invisible
+#print axioms Rustbus.Recv.read_once_on_complete_buffer_is_noop
 #print axioms Rustbus.Recv.complete_history_returns_all
 #print axioms Rustbus.Recv.chunking_irrelevant
 #print axioms Rustbus.Recv.one_byte_at_a_time
 #print axioms Rustbus.Recv.refused_announcement_reads_nothing
-#print axioms Rustbus.Recv.zero_length_read_steals_descriptors
+#print axioms Rustbus.Recv.read_once_on_complete_buffer_keeps_descriptors
